@@ -4,6 +4,18 @@
 // quad matrix products for everything that goes through projectionMatrix() or a camera matrix, and the frustum
 // region defined independently in camera space.  Tolerances are K * eps * (sum of |terms| / |denominator|) with the
 // measured worst error (same units, unchanged tree) noted next to each K.
+//
+// Sections 1-6 run on unit-scale scenes with fresh objects and cameras whose homogeneous weight is 1.  The same case
+// functions are run again as *variants* (struct Variant, sub-checks *_scaled_*, *_homog_*; failure keys prefixed
+// "scaled/" or "homog/"):
+//   scaled : the whole scene (frustum, camera translation, probes) multiplied by 2^k so that its magnitude is 2^E,
+//            E over float -30..29 / double -100..100 - every answer is scale-invariant, all tolerances are relative;
+//            cull_scaled additionally hands the tester over from a previous, nearby state (re-used object)
+//   homog  : the camera matrix M replaced by an equivalent homogeneous representation (all 16 entries times w, or the
+//            weight stored in M[3][3] only); transforming a point by M includes the division by the homogeneous
+//            coordinate, the oracle does the same in quad
+// Sections 7-8 check state carried between calls: a re-used FrustumTest / Frustum must answer bit for bit like a
+// fresh object constructed with the same arguments.
 #include "c15_geom.h"
 #include <ImathFrustum.h>
 #include <ImathFrustumTest.h>
@@ -146,6 +158,110 @@ template <class T> static Q3 corner (const FG<T>& g, int k)
     return Q3 (x * g.f / g.n, y * g.f / g.n, -g.f);
 }
 
+// ---- variants of the case functions below (scene scale, homogeneous weight of the camera, re-used tester) ----------
+struct Variant
+{
+    bool scaled, homog, reuse;
+    int  v0; // id of the first variant label in the label table of the sub-check
+};
+enum
+{
+    VL_SCALE_TINY,
+    VL_SCALE_UNIT,
+    VL_SCALE_HUGE,
+    VL_H_POW2,
+    VL_H_NONDYADIC,
+    VL_H_M33,
+    VL_H_NEG,
+    VL_H_TRANS,
+    VL_RU_FRESH,
+    VL_RU_SUBEPS,
+    VL_RU_CROSSES,
+    VL_RU_OTHER,
+    VL_COUNT
+};
+#define C16_V_LABELS "scene_magnitude_tiny(float<=2^-26,double<=2^-60)", "scene_magnitude_2^-3..2^3", "scene_magnitude_huge(float>=2^25,double>=2^60)", "weight_power_of_two", "weight_not_a_power_of_two(entries_rounded)", "weight_in_m33_only", "weight_negative", "weighted_camera_with_translation", "tester_fresh", "tester_reused_after_absolute_move_below_eps", "that_move_exceeds_the_frustum_size", "tester_reused_after_other_state"
+#define C16_SC_RULE " VARIANT scaled: the scene is multiplied by 2^k (exact) so that its largest coordinate is about 2^E, E drawn from float -30..29 / double -100..100 (1/4 from the lowest five, 1/8 from the highest five values); all answers are scale-invariant and every tolerance is relative."
+
+template <class T> static FG<T> fg_of (const Frustum<T>& F)
+{
+    FG<T> g;
+    g.F     = F;
+    g.ortho = F.orthographic ();
+    g.n = (quad) F.nearPlane (), g.f = (quad) F.farPlane ();
+    g.l = (quad) F.left (), g.r = (quad) F.right (), g.t = (quad) F.top (), g.b = (quad) F.bottom ();
+    g.asym     = (g.l + g.r != 0) || (g.t + g.b != 0);
+    g.ratio100 = g.f > 100 * g.n;
+    return g;
+}
+template <class T> static Frustum<T> scaled_frustum (const Frustum<T>& F, int k)
+{
+    return Frustum<T> (std::ldexp (F.nearPlane (), k), std::ldexp (F.farPlane (), k), std::ldexp (F.left (), k), std::ldexp (F.right (), k), std::ldexp (F.top (), k), std::ldexp (F.bottom (), k), F.orthographic ());
+}
+template <class T> static Matrix44<T> scaled_camera (Matrix44<T> M, int k)
+{
+    for (int j = 0; j < 3; ++j)
+        M[3][j] = std::ldexp (M[3][j], k);
+    return M;
+}
+// exponent E of the scene magnitude to aim for
+template <class T> static int draw_scene_exp (vp::Src& s)
+{
+    const int lo = sizeof (T) == 8 ? -100 : -30, hi = sizeof (T) == 8 ? 100 : 29;
+    int       how = (int) s.below (8);
+    int       E;
+    if (how < 2)
+        E = lo + (int) s.below (5);
+    else if (how == 2)
+        E = hi - (int) s.below (5);
+    else
+        E = (int) s.range (lo, hi);
+    return E;
+}
+template <class T> static void label_scene_exp (vp::Ctx& c, const Variant* vr, int E)
+{
+    const int tiny = sizeof (T) == 8 ? -60 : -26, huge = sizeof (T) == 8 ? 60 : 25;
+    if (E <= tiny) c.label (vr->v0 + VL_SCALE_TINY);
+    if (E >= -3 && E <= 3) c.label (vr->v0 + VL_SCALE_UNIT);
+    if (E >= huge) c.label (vr->v0 + VL_SCALE_HUGE);
+}
+static inline int ilogb_pos (double x) { return x > 0 ? std::ilogb (x) : 0; }
+// largest |coordinate| of the eight corners in world space (double arithmetic; only used to choose k)
+template <class T> static double scene_magnitude (const Frustum<T>& F, const Matrix44<T>& M)
+{
+    double n = F.nearPlane (), f = F.farPlane (), k = F.orthographic () ? 1.0 : f / n, m = 0;
+    for (int i = 0; i < 8; ++i)
+    {
+        double sc = (i & 4) ? k : 1.0;
+        double p[3] = { ((i & 1) ? F.right () : F.left ()) * sc, ((i & 2) ? F.top () : F.bottom ()) * sc, (i & 4) ? -f : -n };
+        for (int j = 0; j < 3; ++j)
+            m = std::max (m, std::fabs (p[0] * M[0][j] + p[1] * M[1][j] + p[2] * M[2][j] + M[3][j]));
+    }
+    return m;
+}
+// frustum-only variant: rescale g in place to magnitude 2^E
+template <class T> static void rescale_fg (vp::Ctx& c, const Variant* vr, FG<T>& g, int E)
+{
+    int k = E - ilogb_pos ((double) g.F.farPlane ());
+    g     = fg_of (scaled_frustum (g.F, k));
+    label_scene_exp<T> (c, vr, E);
+    VP_NOTE (c, "SCALED by 2^" << k << ": near=" << g.F.nearPlane () << " far=" << g.F.farPlane () << " left=" << g.F.left () << " right=" << g.F.right () << " top=" << g.F.top () << " bottom=" << g.F.bottom ());
+}
+// run a case function as a variant: failure keys get the prefix
+#define C16_VARIANT(prefix, call)                            \
+    do                                                       \
+    {                                                        \
+        try                                                  \
+        {                                                    \
+            call;                                            \
+        }                                                    \
+        catch (vp::Fail&)                                    \
+        {                                                    \
+            c.fail_key = std::string (prefix) + c.fail_key;  \
+            throw;                                           \
+        }                                                    \
+    } while (0)
+
 // =====================================================================================
 // 1. accessors, projectionMatrix (slots + corners -> cube), projectPointToScreen, projectScreenToRay
 // =====================================================================================
@@ -153,14 +269,20 @@ enum
 {
     PJ_BEHIND = FL_FIRST_FREE,
     PJ_OUTSIDE_WINDOW,
-    PJ_RAY_BEHIND
+    PJ_RAY_BEHIND,
+    PJ_V0
 };
-template <class T> static void proj_case (vp::Ctx& c, const char* tn)
+template <class T> static void proj_case (vp::Ctx& c, const char* tn, const Variant* vr = nullptr)
 {
     typedef Vec3<T> V;
     vp::Src&        s   = c.s;
     const quad      eps = EPS<T> ();
     FG<T>           g   = gen_frustum<T> (c);
+    if (vr && vr->scaled)
+    {
+        int E = draw_scene_exp<T> (s);
+        rescale_fg (c, vr, g, E);
+    }
     const Frustum<T>& F = g.F;
     c.nt (g.asym || g.ratio100);
     VP_REQUIRE (c, same<T> (F.hither (), F.nearPlane ()) && same<T> (F.yon (), F.farPlane ()), "frustum/hither-yon", tn << " hither/yon differ from nearPlane/farPlane");
@@ -186,6 +308,23 @@ template <class T> static void proj_case (vp::Ctx& c, const char* tn)
     for (int i = 0; i < 4; ++i)
         for (int j = 0; j < 4; ++j)
             QG_CHK (c, "projectionMatrix/slot", qabs ((quad) M[i][j] - X.a[i][j]), eps * qabs (X.a[i][j]) + (quad) 1e-300, 8, tn << " projectionMatrix[" << i << "][" << j << "] = " << M[i][j] << " exact " << qstr (X.a[i][j])); // measured worst 1.5 units
+    if (vr) // the throwing spelling is a second textual copy: same layout, and no throw for a non-degenerate frustum at any scale
+    {
+        Matrix44<T> ME;
+        bool        threw = false;
+        try
+        {
+            ME = F.projectionMatrixExc ();
+        }
+        catch (const std::exception&)
+        {
+            threw = true;
+        }
+        VP_REQUIRE (c, !threw, "projectionMatrixExc/throws", tn << " projectionMatrixExc() threw on a non-degenerate frustum");
+        for (int i = 0; i < 4; ++i)
+            for (int j = 0; j < 4; ++j)
+                QG_CHK (c, "projectionMatrixExc/slot", qabs ((quad) ME[i][j] - X.a[i][j]), eps * qabs (X.a[i][j]) + (quad) 1e-300, 8, tn << " projectionMatrixExc[" << i << "][" << j << "] = " << ME[i][j] << " exact " << qstr (X.a[i][j])); // measured worst 1.5 units
+    }
     // ---- the eight corners go to the corners of the cube
     QM<4> Mq = QM<4>::from (M);
     auto  apply = [&] (const Q3& p, Q3& out, Q3& absn, quad& w) {
@@ -332,13 +471,19 @@ enum
     DZ_NEAR_FAR_END,
     DZ_WIDE_RANGE,
     DZ_NEG_ZMIN,
-    DZ_ILLCOND
+    DZ_ILLCOND,
+    DZ_V0
 };
-template <class T> static void depth_case (vp::Ctx& c, const char* tn)
+template <class T> static void depth_case (vp::Ctx& c, const char* tn, const Variant* vr = nullptr)
 {
     vp::Src&          s   = c.s;
     const quad        eps = EPS<T> ();
     FG<T>             g   = gen_frustum<T> (c, false);
+    if (vr && vr->scaled)
+    {
+        int E = draw_scene_exp<T> (s);
+        rescale_fg (c, vr, g, E);
+    }
     const Frustum<T>& F   = g.F;
     const quad        n = g.n, f = g.f;
     c.nt (g.asym || g.ratio100);
@@ -377,6 +522,21 @@ template <class T> static void depth_case (vp::Ctx& c, const char* tn)
     if (!lin1) c.label (DZ_ILLCOND);
     if (lin1) QG_CHK (c, "normalizedZToDepth", qabs ((quad) d - dx), eps * qabs (dx) * cond, 4, tn << " normalizedZToDepth(" << zn << ") = " << d << " exact " << qstr (dx)); // measured worst 0.98 units
     if (lin1 && zn == 0) QG_CHK (c, "normalizedZToDepth/near", qabs ((quad) d + n), eps * n * cond, 4, tn << " normalizedZToDepth(0) = " << d << ", near = " << F.nearPlane ()); // measured worst 0.96 units
+    if (vr) // throwing spellings (second textual copies): no throw for a non-degenerate frustum at any scale, same bounds
+    {
+        T    dE = 0;
+        bool threw = false;
+        try
+        {
+            dE = F.normalizedZToDepthExc (zn);
+        }
+        catch (const std::exception&)
+        {
+            threw = true;
+        }
+        VP_REQUIRE (c, !threw, "normalizedZToDepthExc/throws", tn << " normalizedZToDepthExc(" << zn << ") threw on a non-degenerate frustum");
+        if (lin1) QG_CHK (c, "normalizedZToDepthExc", qabs ((quad) dE - dx), eps * qabs (dx) * cond, 4, tn << " normalizedZToDepthExc(" << zn << ") = " << dE << " exact " << qstr (dx)); // measured worst 0.98 units
+    }
     if (lin1 && zn == 1) QG_CHK (c, "normalizedZToDepth/far", qabs ((quad) d + f), eps * f * cond, 4, tn << " normalizedZToDepth(1) = " << d << ", far = " << F.farPlane ()); // measured worst 0.98 units
     // agrees with the depth of projectionMatrix(): (0,0,d) * M has NDC z = 2 zn - 1
     if (lin1)
@@ -413,6 +573,21 @@ template <class T> static void depth_case (vp::Ctx& c, const char* tn)
     T    dz     = F.ZToDepth (zv, zmin, zmax);
     bool lin2   = 4 * udep <= (quad) 0.125 * qabs (dzx);
     if (!lin2) c.label (DZ_ILLCOND);
+    if (vr)
+    {
+        T    dzE = 0;
+        bool threw = false;
+        try
+        {
+            dzE = F.ZToDepthExc (zv, zmin, zmax);
+        }
+        catch (const std::exception&)
+        {
+            threw = true;
+        }
+        VP_REQUIRE (c, !threw, "ZToDepthExc/throws", tn << " ZToDepthExc(" << zv << "," << zmin << "," << zmax << ") threw on a non-degenerate frustum");
+        if (lin2) QG_CHK (c, "ZToDepthExc", qabs ((quad) dzE - dzx), udep, 4, tn << " ZToDepthExc(" << zv << "," << zmin << "," << zmax << ") = " << dzE << " exact " << qstr (dzx)); // measured worst 0.98 units
+    }
     if (lin2) QG_CHK (c, "ZToDepth", qabs ((quad) dz - dzx), udep, 4, tn << " ZToDepth(" << zv << "," << zmin << "," << zmax << ") = " << dz << " exact " << qstr (dzx)); // measured worst 0.98 units
     // DepthToZ of a depth in [-far,-near]: within one step (truncation) of the exact 0.5*(Zp+1)*zdiff
     {
@@ -430,6 +605,21 @@ template <class T> static void depth_case (vp::Ctx& c, const char* tn)
         QG_MEAS ("DepthToZ(excess/(eps*cond*zdiff))", (steps - 1) / (eps * zc * (quad) zdiff));
         VP_REQUIRE (c, steps <= 1 + 4 * eps * zc * (quad) zdiff, "DepthToZ", // measured worst excess over 1 step: 0.96 eps*cond*zdiff
                     tn << " DepthToZ(" << dep << "," << zmin << "," << zmax << ") = " << zr << " but 0.5*(Zp+1)*zdiff + zmin = " << qstr (vx + (quad) zmin) << " (allowed 1 + " << (double) (4 * eps * zc * (quad) zdiff) << " steps)");
+        if (vr)
+        {
+            long zrE   = 0;
+            bool threw = false;
+            try
+            {
+                zrE = F.DepthToZExc (dep, zmin, zmax);
+            }
+            catch (const std::exception&)
+            {
+                threw = true;
+            }
+            VP_REQUIRE (c, !threw, "DepthToZExc/throws", tn << " DepthToZExc(" << dep << "," << zmin << "," << zmax << ") threw for a depth in [-far,-near] of a non-degenerate frustum");
+            VP_REQUIRE (c, qabs ((quad) (zrE - zmin) - vx) <= 1 + 4 * eps * zc * (quad) zdiff, "DepthToZExc", tn << " DepthToZExc(" << dep << "," << zmin << "," << zmax << ") = " << zrE << " but 0.5*(Zp+1)*zdiff + zmin = " << qstr (vx + (quad) zmin));
+        }
     }
     // round trip z -> depth -> z
     if (lin2)
@@ -458,16 +648,25 @@ enum
     FV_FOVX = FL_FIRST_FREE,
     FV_FOVY,
     FV_IDENTITY_WINDOW,
-    FV_SUB_WINDOW
+    FV_SUB_WINDOW,
+    FV_V0
 };
-template <class T> static void fov_case (vp::Ctx& c, const char* tn)
+template <class T> static void fov_case (vp::Ctx& c, const char* tn, const Variant* vr = nullptr)
 {
     typedef Vec3<T> V;
     vp::Src&        s   = c.s;
     const quad      eps = EPS<T> ();
+    int             E   = 0;
+    if (vr && vr->scaled) E = draw_scene_exp<T> (s);
     // ---- set(near, far, fovx, fovy, aspect): documented relations
     {
         T    n = (T) std::pow (10.0, s.uniform (-2, 2)), f = n * (T) std::pow (10.0, s.uniform (0.1, 6));
+        if (vr && vr->scaled)
+        {
+            int k = E - ilogb_pos ((double) f);
+            n     = std::ldexp (n, k);
+            f     = std::ldexp (f, k);
+        }
         T    fov = (T) s.uniform (0.02, 3.0), asp = (T) std::pow (10.0, s.uniform (-0.7, 0.7));
         bool usex = s.coin ();
         c.label (usex ? FV_FOVX : FV_FOVY);
@@ -494,6 +693,7 @@ template <class T> static void fov_case (vp::Ctx& c, const char* tn)
     }
     // ---- general frustum: fovx / fovy / aspect from the window
     FG<T>             g = gen_frustum<T> (c, false);
+    if (vr && vr->scaled) rescale_fg (c, vr, g, E);
     const Frustum<T>& F = g.F;
     const quad        n = g.n, f = g.f, l = g.l, r = g.r, t = g.t, b = g.b;
     c.nt (g.asym || g.ratio100);
@@ -502,6 +702,21 @@ template <class T> static void fov_case (vp::Ctx& c, const char* tn)
         QG_CHK (c, "fovx", qabs ((quad) F.fovx () - fx), eps * (qabs (atan2q (r, n)) + qabs (atan2q (l, n))), 6, tn << " fovx() = " << F.fovx () << " exact " << qstr (fx)); // measured worst 1.3 units
         QG_CHK (c, "fovy", qabs ((quad) F.fovy () - fy), eps * (qabs (atan2q (t, n)) + qabs (atan2q (b, n))), 6, tn << " fovy() = " << F.fovy () << " exact " << qstr (fy)); // measured worst 1.2 units
         QG_CHK (c, "aspect", qabs ((quad) F.aspect () - (r - l) / (t - b)), eps * (r - l) / (t - b), 8, tn << " aspect() = " << F.aspect () << " exact " << qstr ((r - l) / (t - b))); // measured worst 1.5 units
+        if (vr)
+        {
+            T    aE    = 0;
+            bool threw = false;
+            try
+            {
+                aE = F.aspectExc ();
+            }
+            catch (const std::exception&)
+            {
+                threw = true;
+            }
+            VP_REQUIRE (c, !threw, "aspectExc/throws", tn << " aspectExc() threw on a non-degenerate frustum");
+            QG_CHK (c, "aspectExc", qabs ((quad) aE - (r - l) / (t - b)), eps * (r - l) / (t - b), 8, tn << " aspectExc() = " << aE << " exact " << qstr ((r - l) / (t - b))); // measured worst 1.5 units
+        }
     }
     // ---- screenToLocal / localToScreen (protected; reached through a derived class)
     OpenFrustum<T> O (F);
@@ -597,6 +812,23 @@ template <class T> static void fov_case (vp::Ctx& c, const char* tn)
         QG_CHK (c, "worldRadius", qabs ((quad) w2 - wx), eps * wx, 4, tn << " worldRadius(" << vs (p) << "," << R << ") = " << w2 << " exact " << qstr (wx)); // measured worst 0.98 units
         T s2 = F.screenRadius (p, w2);
         QG_CHK (c, "screenRadius-worldRadius", qabs ((quad) s2 - (quad) R), eps * (quad) R, 8, tn << " screenRadius(p, worldRadius(p," << R << ")) = " << s2); // measured worst 1.5 units
+        if (vr)
+        {
+            T    srE = 0, wrE = 0;
+            bool threw = false;
+            try
+            {
+                srE = F.screenRadiusExc (p, R);
+                wrE = F.worldRadiusExc (p, R);
+            }
+            catch (const std::exception&)
+            {
+                threw = true;
+            }
+            VP_REQUIRE (c, !threw, "screenRadiusExc/throws", tn << " screenRadiusExc / worldRadiusExc(" << vs (p) << "," << R << ") threw on a non-degenerate frustum");
+            QG_CHK (c, "screenRadiusExc", qabs ((quad) srE - sx), eps * sx, 4, tn << " screenRadiusExc(" << vs (p) << "," << R << ") = " << srE << " exact " << qstr (sx)); // measured worst 0.95 units
+            QG_CHK (c, "worldRadiusExc", qabs ((quad) wrE - wx), eps * wx, 4, tn << " worldRadiusExc(" << vs (p) << "," << R << ") = " << wrE << " exact " << qstr (wx)); // measured worst 0.98 units
+        }
     }
 }
 #define C16_FV_RULE C16_FR_RULE "plus set(near,far,fov 0.02..3.0 in x or y,aspect 0.2..5); sub-windows of [-1,1]^2 incl. the identity window; new near x 1e-2..1e2; points at 0.1..1000 near; oracle = quad tan/atan2 and the documented relations; non-trivial = asymmetric window or far/near > 100"
@@ -617,6 +849,17 @@ VP_REQUIRE_LABELS (fov_d, "perspective", "orthographic", "asymmetric_window", "s
 static const int FACE4[6][4] = { { 2, 3, 6, 7 }, { 1, 3, 5, 7 }, { 0, 1, 4, 5 }, { 0, 2, 4, 6 }, { 0, 1, 2, 3 }, { 4, 5, 6, 7 } };
 static const char* const PLANE_NAME[6] = { "top", "right", "bottom", "left", "near", "far" };
 
+// exact image of a point under M (entries taken as exact, row-vector convention) INCLUDING the division by the
+// homogeneous coordinate - what Vec3 * Matrix44 means in Imath.  For a last column (0,0,0,1) this is the affine map.
+template <class T> static inline Q3 xform_h (const Q3& p, const Matrix44<T>& M)
+{
+    quad o[4];
+    for (int j = 0; j < 4; ++j)
+        o[j] = p.x * (quad) M[0][j] + p.y * (quad) M[1][j] + p.z * (quad) M[2][j] + (quad) M[3][j];
+    if (o[3] == 1) return Q3 (o[0], o[1], o[2]);
+    return Q3 (o[0] / o[3], o[1] / o[3], o[2] / o[3]);
+}
+
 template <class T> struct XPlanes
 {
     Q3   N[6];
@@ -631,12 +874,12 @@ template <class T> static XPlanes<T> exact_planes (const FG<T>& g, const Matrix4
 {
     XPlanes<T> X;
     Q3         eye (0, 0, 0);
-    if (M) eye = xform (eye, *M);
+    if (M) eye = xform_h (eye, *M);
     X.cen = Q3 (0, 0, 0);
     for (int k = 0; k < 8; ++k)
     {
         X.cor[k] = corner (g, k);
-        if (M) X.cor[k] = xform (X.cor[k], *M);
+        if (M) X.cor[k] = xform_h (X.cor[k], *M);
         X.cen = X.cen + X.cor[k] * (quad) 0.125;
     }
     for (int i = 0; i < 6; ++i)
@@ -663,6 +906,51 @@ template <class T> static XPlanes<T> exact_planes (const FG<T>& g, const Matrix4
     return X;
 }
 
+// replace the camera M0 (last column (0,0,0,1)) by an equivalent homogeneous representation: every entry times w
+// (w = +-2^e exactly, or a weight that is not a power of two - the products are rounded and the oracle takes the stored
+// entries as exact), or the weight stored in M[3][3] only (the map p -> (p A + t) / w: a uniform scale kept in the
+// homogeneous element).  In each case Vec3 * Matrix44 divides by the homogeneous coordinate w.
+template <class T> static Matrix44<T> weight_camera (vp::Ctx& c, const Variant* vr, const Matrix44<T>& M0, bool& same_map)
+{
+    static const double WL[9] = { 3, 0.3, 1e-3, 10, 7, 1.0 / 3, 1.5, 0.75, 100 };
+    vp::Src&            s     = c.s;
+    int                 hk    = (int) s.below (3);
+    bool                neg   = s.chance (64);
+    double              wd;
+    if (hk == 0)
+    {
+        int  e   = (int) s.range (1, 8);
+        bool inv = s.coin ();
+        wd       = std::ldexp (1.0, inv ? -e : e);
+    }
+    else
+    {
+        int wi = (int) s.below (10);
+        if (wi < 9)
+            wd = WL[wi];
+        else
+            wd = std::pow (10.0, s.uniform (-3, 3));
+    }
+    // (a negative weight in M[3][3] alone is the point reflection p -> -(p A + t)/|w|, a mirrored camera: out of scope;
+    //  a negative weight on all 16 entries is the same map as the positive one)
+    if (hk == 2) neg = false;
+    if (neg) wd = -wd;
+    T           w = (T) wd;
+    Matrix44<T> M = M0;
+    if (hk == 2)
+        M[3][3] = w;
+    else
+        for (int i = 0; i < 4; ++i)
+            for (int j = 0; j < 4; ++j)
+                M[i][j] = M0[i][j] * w;
+    c.label (vr->v0 + (hk == 0 ? VL_H_POW2 : hk == 1 ? VL_H_NONDYADIC : VL_H_M33));
+    if (neg) c.label (vr->v0 + VL_H_NEG);
+    if (M0[3][0] != 0 || M0[3][1] != 0 || M0[3][2] != 0) c.label (vr->v0 + VL_H_TRANS);
+    VP_NOTE (c, "WEIGHT w=" << w << (hk == 2 ? " stored in M[3][3] only" : " applied to all 16 entries"));
+    same_map = hk != 2;
+    return M;
+}
+
 enum
 {
     PLN_NO_MATRIX = FL_FIRST_FREE,
@@ -671,9 +959,10 @@ enum
     PLN_NUSCALE,
     PLN_GENERAL,
     PLN_BAND,
-    PLN_ILLCOND
+    PLN_ILLCOND,
+    PLN_V0
 };
-template <class T> static void planes_case (vp::Ctx& c, const char* tn)
+template <class T> static void planes_case (vp::Ctx& c, const char* tn, const Variant* vr = nullptr)
 {
     typedef Vec3<T> V;
     vp::Src&        s   = c.s;
@@ -683,6 +972,23 @@ template <class T> static void planes_case (vp::Ctx& c, const char* tn)
     bool            useM = s.chance (160);
     int             mk   = (int) s.range (MK_IDENT, MK_GENERAL);
     Matrix44<T>     M    = gen_affine<T> (s, useM ? mk : MK_IDENT, false);
+    Matrix44<T>     M0   = M; // unit weight
+    int             E    = 0;
+    bool            same_map = false;
+    if (vr && vr->scaled)
+    {
+        E     = draw_scene_exp<T> (s);
+        int k = E - ilogb_pos (scene_magnitude (g.F, M));
+        g     = fg_of (scaled_frustum (g.F, k));
+        M     = scaled_camera (M, k);
+        VP_NOTE (c, "SCALED by 2^" << k << ": near=" << g.F.nearPlane () << " far=" << g.F.farPlane () << " left=" << g.F.left () << " right=" << g.F.right () << " top=" << g.F.top () << " bottom=" << g.F.bottom ());
+    }
+    if (vr && vr->homog)
+    {
+        if (!useM) mk = MK_IDENT;
+        useM = true;
+        M    = weight_camera (c, vr, M0, same_map);
+    }
     Plane3<T>       p[6];
     for (int i = 0; i < 6; ++i)
     {
@@ -714,6 +1020,8 @@ template <class T> static void planes_case (vp::Ctx& c, const char* tn)
             c.nontrivial = false;
             return;
         }
+    if (vr && vr->scaled) label_scene_exp<T> (c, vr, E);
+    if (vr && vr->homog) c.nt ();
     for (int i = 0; i < 6; ++i)
     {
         Q3   N = q3 (p[i].normal);
@@ -759,6 +1067,25 @@ template <class T> static void planes_case (vp::Ctx& c, const char* tn)
                 continue;
             }
             VP_REQUIRE (c, (sx < 0) == (sg < 0), "planes/region", tn << " point " << qs (P) << " is at exact distance " << qstr (sx) << " from the " << PLANE_NAME[j] << " face but the returned plane gives " << qstr (sg));
+        }
+    }
+    // ---- an equivalent homogeneous representation gives the same planes as the unit-weight matrix (for a weight that
+    //      is not a power of two the entries of M were rounded: both sets are within the bounds above of their own exact
+    //      planes, and those differ by the rounding of the entries - allowed for by the factor 2 + 2 cond)
+    if (vr && vr->homog && same_map)
+    {
+        Plane3<T> p0[6];
+        F.planes (p0, M0);
+        XPlanes<T> X0 = exact_planes (g, &M0);
+        for (int i = 0; i < 6; ++i)
+        {
+            quad un = eps * (1 + qmax (X.condN[i], X0.condN[i]));
+            if (!(eps * (1 + X0.condN[i]) <= (quad) (1.0 / 64))) continue;
+            // exact planes of the two representations: equal unless the entries were rounded
+            quad dn = len (X.N[i] - X0.N[i]), dd = qabs (X.d[i] - X0.d[i]);
+            for (int j = 0; j < 3; ++j)
+                QG_CHK (c, "planes-weighted-vs-unit-weight/normal", qabs ((quad) p[i].normal[j] - (quad) p0[i].normal[j]), 2 * un + dn / 8, 8, tn << " " << PLANE_NAME[i] << ": planes(p,w*M) normal[" << j << "] = " << p[i].normal[j] << " but planes(p,M) gives " << p0[i].normal[j]); // measured worst 2.3 units
+            QG_CHK (c, "planes-weighted-vs-unit-weight/distance", qabs ((quad) p[i].distance - (quad) p0[i].distance), 2 * un * qmax (X.S[i], X0.S[i]) + dd / 8, 8, tn << " " << PLANE_NAME[i] << ": planes(p,w*M) distance = " << p[i].distance << " but planes(p,M) gives " << p0[i].distance); // measured worst 2.1 units
         }
     }
     // ---- planes(p, M) equals planes(p) transformed by M (Plane3 * Matrix44)
@@ -812,11 +1139,12 @@ enum
     CU_SPH_NOT_CONTAINED,
     CU_SPH_CONTAINED_TRUE,
     CU_SPH_VISIBLE_FALSE,
-    CU_ILLCOND
+    CU_ILLCOND,
+    CU_V0
 };
 #define C16_CU_LABELS "at_top", "at_right", "at_bottom", "at_left", "at_near", "at_far", "placed_inside", "placed_outside", "within_10_margins_of_a_plane", "point_visible", "point_hidden", "point_in_band_skipped", "box_touches(must be visible)", "box_has_point_outside(must not be contained)", "box_completelyContains_true", "box_isVisible_false", "sphere_touches(must be visible)", "sphere_has_point_outside(must not be contained)", "sphere_completelyContains_true", "sphere_isVisible_false", "unresolvable_or_overflowing_face_skipped"
 
-template <class T> static void cull_case (vp::Ctx& c, const char* tn)
+template <class T> static void cull_case (vp::Ctx& c, const char* tn, const Variant* vr = nullptr)
 {
     typedef Vec3<T> V;
     vp::Src&        s   = c.s;
@@ -824,13 +1152,78 @@ template <class T> static void cull_case (vp::Ctx& c, const char* tn)
     FG<T>           g   = gen_frustum<T> (c, true, 6);
     int             mk  = (int) s.range (MK_IDENT, MK_GENERAL);
     Matrix44<T>     M   = gen_affine<T> (s, mk, false);
+    int             E   = 0;
+    if (vr && vr->scaled)
+    {
+        E     = draw_scene_exp<T> (s);
+        int k = E - ilogb_pos (scene_magnitude (g.F, M));
+        g     = fg_of (scaled_frustum (g.F, k));
+        M     = scaled_camera (M, k);
+        VP_NOTE (c, "SCALED by 2^" << k << ": near=" << g.F.nearPlane () << " far=" << g.F.farPlane () << " left=" << g.F.left () << " right=" << g.F.right () << " top=" << g.F.top () << " bottom=" << g.F.bottom ());
+    }
+    if (vr && vr->homog)
+    {
+        bool same_map;
+        M = weight_camera (c, vr, Matrix44<T> (M), same_map);
+    }
     VP_NOTE (c, "camera(" << MK_NAME[mk] << ")=" << mstr (M, 4));
     FrustumTest<T> ft;
-    if (s.coin ())
+    // variant: the tester is handed over from a previous state - the same frustum with the camera moved along one axis by
+    // an absolute amount below epsilon (2^-(p+1) .. 2^-(p+16)), by one ulp or far away, or the same camera with a
+    // frustum whose near plane differs by one ulp - and then given (frustum, camera) by setFrustum
+    bool reused = false;
+    quad moved  = 0;
+    if (vr && vr->reuse)
+    {
+        int rm = (int) s.below (4);
+        if (rm >= 2)
+        {
+            Matrix44<T> Mp   = M;
+            Frustum<T>  Fp   = g.F;
+            int         what = (int) s.below (4);
+            int         ax   = (int) s.below (3);
+            bool        up   = s.coin ();
+            if (what == 0)
+            {
+                int e      = (int) s.range (FInfo<T>::mant + 1, FInfo<T>::mant + 16);
+                T   d      = std::ldexp ((T) 1, -e);
+                Mp[3][ax]  = M[3][ax] + (up ? d : -d);
+                moved      = qabs ((quad) Mp[3][ax] - (quad) M[3][ax]);
+                c.label (vr->v0 + VL_RU_SUBEPS);
+            }
+            else if (what == 1)
+                Mp[3][ax] = std::nextafter (M[3][ax], up ? std::numeric_limits<T>::max () : -std::numeric_limits<T>::max ());
+            else if (what == 2)
+            {
+                Mp[3][ax] = -M[3][ax] + (up ? (T) 1 : (T) -1) * g.F.farPlane ();
+                Fp.setOrthographic (!Fp.orthographic ());
+            }
+            else
+                Fp.set (std::nextafter (g.F.nearPlane (), up ? g.F.farPlane () : (T) 0), g.F.farPlane (), g.F.left (), g.F.right (), g.F.top (), g.F.bottom (), g.F.orthographic ());
+            if (what != 0) c.label (vr->v0 + VL_RU_OTHER);
+            bool viaCtorP = s.coin ();
+            if (viaCtorP)
+                ft = FrustumTest<T> (Fp, Mp);
+            else
+                ft.setFrustum (Fp, Mp);
+            reused = true;
+        }
+        else
+            c.label (vr->v0 + VL_RU_FRESH);
+    }
+    bool viaCtor = s.coin ();
+    if (viaCtor && !reused)
         ft = FrustumTest<T> (g.F, M);
     else
         ft.setFrustum (g.F, M);
-    VP_REQUIRE (c, ft.cameraMat () == M && ft.currentFrustum () == g.F, "FrustumTest/accessors", tn << " cameraMat()/currentFrustum() do not return what was set");
+    {
+        Matrix44<T> cm   = ft.cameraMat ();
+        bool        eqM  = true;
+        for (int i = 0; i < 4; ++i)
+            for (int j = 0; j < 4; ++j)
+                eqM = eqM && (vr ? same<T> (cm[i][j], M[i][j]) : cm[i][j] == M[i][j]);
+        VP_REQUIRE (c, eqM && ft.currentFrustum () == g.F, "FrustumTest/accessors", tn << " cameraMat()/currentFrustum() do not return what was set: cameraMat() = " << mstr (cm, 4));
+    }
     XPlanes<T> X = exact_planes (g, &M);
     for (int i = 0; i < 6; ++i)
         if (!(eps * (1 + X.condN[i]) <= (quad) (1.0 / 64)))
@@ -838,9 +1231,12 @@ template <class T> static void cull_case (vp::Ctx& c, const char* tn)
             c.label (CU_ILLCOND);
             return;
         }
+    if (vr && vr->scaled) label_scene_exp<T> (c, vr, E);
     quad size = 0;
     for (int k = 0; k < 8; ++k)
         size = qmax (size, len (X.cor[k] - X.cen));
+    if (moved > size) c.label (vr->v0 + VL_RU_CROSSES);
+    if (vr) c.nt ();
     // margin: how far the planes held by FrustumTest (computed in T from transformed corners) can be from the exact ones
     // (1-norms instead of lengths: no square roots in the inner loop; at most sqrt(3) wider)
     auto l1   = [] (const Q3& a) -> quad { return qabs (a.x) + qabs (a.y) + qabs (a.z); };
@@ -1315,5 +1711,525 @@ VP_RANDOM (cullhuge_d, 100000, 1000000, C16_HU_RULE) { cull_huge_case<double> (c
 VP_LABELS (cullhuge_d, C16_FR_LABELS, C16_HU_LABELS)
 VP_REQUIRE_LABELS (cullhuge_d, "perspective", "orthographic", "camera_axis_aligned", "camera_general", "box_infinite", "box_wider_than_max", "box_half_infinite", "box_huge_finite", "box_touches(must be visible)", "box_has_point_outside(must not be contained)", "sphere_radius_max", "sphere_far_centre", "sphere_touches(must be visible)", "sphere_has_point_outside(must not be contained)")
 VP_FUZZABLE (cullhuge_d)
+
+
+// =====================================================================================
+// 7. Variants of sections 1-5: scenes of magnitude 2^E, equivalent homogeneous cameras, handed-over testers
+// =====================================================================================
+#define C16_V_SCALE_REQ "scene_magnitude_tiny(float<=2^-26,double<=2^-60)", "scene_magnitude_2^-3..2^3", "scene_magnitude_huge(float>=2^25,double>=2^60)"
+#define C16_V_HOMOG_REQ "weight_power_of_two", "weight_not_a_power_of_two(entries_rounded)", "weight_in_m33_only", "weight_negative", "weighted_camera_with_translation"
+#define C16_HG_RULE " VARIANT homog: the camera matrix is replaced by an equivalent homogeneous representation - all 16 entries times w = +-2^(+-1..8) (exact) or times a weight that is not a power of two (3, 0.3, 1e-3, 10, 7, 1/3, 1.5, 0.75, 100, 10^-3..3; products rounded, oracle uses the stored entries), or the weight stored in M[3][3] only (uniform scale 1/w); 1 in 4 negative; oracle = local corners transformed in quad WITH the division by the homogeneous coordinate; every evaluated case counts as non-trivial."
+#define C16_RU_RULE " The tester is fresh (constructor / default + setFrustum) in half of the cases and otherwise re-used: it first holds the same frustum with the camera translated along one axis by +-2^-(p+1..p+16) (below epsilon, absolute), by one ulp or far away (and the other projection kind), or the same camera with the near plane one ulp off, and is then updated by setFrustum."
+
+static const Variant V_PJ_SCALED  = { true, false, false, PJ_V0 };
+static const Variant V_DZ_SCALED  = { true, false, false, DZ_V0 };
+static const Variant V_FV_SCALED  = { true, false, false, FV_V0 };
+static const Variant V_PLN_SCALED = { true, false, false, PLN_V0 };
+static const Variant V_PLN_HOMOG  = { false, true, false, PLN_V0 };
+static const Variant V_CU_SCALED  = { true, false, true, CU_V0 };
+static const Variant V_CU_HOMOG   = { false, true, true, CU_V0 };
+
+VP_RANDOM (proj_scaled_f, 60000, 600000, C16_PJ_RULE C16_SC_RULE " Also projectionMatrixExc.") { C16_VARIANT ("scaled/", proj_case<float> (c, "float", &V_PJ_SCALED)); }
+VP_LABELS (proj_scaled_f, C16_FR_LABELS, "point_behind_eye", "point_outside_window", "ray_point_behind_eye", C16_V_LABELS)
+VP_REQUIRE_LABELS (proj_scaled_f, "perspective", "orthographic", "point_behind_eye", "point_outside_window", C16_V_SCALE_REQ)
+VP_RANDOM (proj_scaled_d, 60000, 600000, C16_PJ_RULE C16_SC_RULE " Also projectionMatrixExc.") { C16_VARIANT ("scaled/", proj_case<double> (c, "double", &V_PJ_SCALED)); }
+VP_LABELS (proj_scaled_d, C16_FR_LABELS, "point_behind_eye", "point_outside_window", "ray_point_behind_eye", C16_V_LABELS)
+VP_REQUIRE_LABELS (proj_scaled_d, "perspective", "orthographic", "point_behind_eye", "point_outside_window", C16_V_SCALE_REQ)
+
+VP_RANDOM (depth_scaled_f, 60000, 600000, C16_DZ_RULE C16_SC_RULE " Also normalizedZToDepthExc / ZToDepthExc / DepthToZExc.") { C16_VARIANT ("scaled/", depth_case<float> (c, "float", &V_DZ_SCALED)); }
+VP_LABELS (depth_scaled_f, C16_FR_LABELS, "zn_endpoint", "zn_close_to_1", "zrange>=2^24", "negative_zmin", "ill_conditioned_skipped", C16_V_LABELS)
+VP_REQUIRE_LABELS (depth_scaled_f, "perspective", "orthographic", "far/near>100", C16_V_SCALE_REQ)
+VP_RANDOM (depth_scaled_d, 60000, 600000, C16_DZ_RULE C16_SC_RULE " Also normalizedZToDepthExc / ZToDepthExc / DepthToZExc.") { C16_VARIANT ("scaled/", depth_case<double> (c, "double", &V_DZ_SCALED)); }
+VP_LABELS (depth_scaled_d, C16_FR_LABELS, "zn_endpoint", "zn_close_to_1", "zrange>=2^24", "negative_zmin", "ill_conditioned_skipped", C16_V_LABELS)
+VP_REQUIRE_LABELS (depth_scaled_d, "perspective", "orthographic", "far/near>100", C16_V_SCALE_REQ)
+
+VP_RANDOM (fov_scaled_f, 40000, 400000, C16_FV_RULE C16_SC_RULE " Also aspectExc / screenRadiusExc / worldRadiusExc.") { C16_VARIANT ("scaled/", fov_case<float> (c, "float", &V_FV_SCALED)); }
+VP_LABELS (fov_scaled_f, C16_FR_LABELS, "set_fovx", "set_fovy", "identity_window", "sub_window", C16_V_LABELS)
+VP_REQUIRE_LABELS (fov_scaled_f, "perspective", "orthographic", "set_fovx", "set_fovy", C16_V_SCALE_REQ)
+VP_RANDOM (fov_scaled_d, 40000, 400000, C16_FV_RULE C16_SC_RULE " Also aspectExc / screenRadiusExc / worldRadiusExc.") { C16_VARIANT ("scaled/", fov_case<double> (c, "double", &V_FV_SCALED)); }
+VP_LABELS (fov_scaled_d, C16_FR_LABELS, "set_fovx", "set_fovy", "identity_window", "sub_window", C16_V_LABELS)
+VP_REQUIRE_LABELS (fov_scaled_d, "perspective", "orthographic", "set_fovx", "set_fovy", C16_V_SCALE_REQ)
+
+#define C16_PLN_LABELS "planes(p)", "planes(p,rigid M)", "planes(p,uniform scale)", "planes(p,non-uniform scale)", "planes(p,general affine)", "probe_in_band_skipped", "unresolvable_or_overflowing_face_skipped"
+VP_RANDOM (planes_scaled_f, 50000, 500000, C16_PLN_RULE C16_SC_RULE " (scene magnitude = largest world-space corner coordinate; the camera translation is scaled with the frustum)") { C16_VARIANT ("scaled/", planes_case<float> (c, "float", &V_PLN_SCALED)); }
+VP_LABELS (planes_scaled_f, C16_FR_LABELS, C16_PLN_LABELS, C16_V_LABELS)
+VP_REQUIRE_LABELS (planes_scaled_f, "perspective", "orthographic", "planes(p)", "planes(p,rigid M)", "planes(p,uniform scale)", "planes(p,non-uniform scale)", "planes(p,general affine)", C16_V_SCALE_REQ)
+VP_RANDOM (planes_scaled_d, 50000, 500000, C16_PLN_RULE C16_SC_RULE " (scene magnitude = largest world-space corner coordinate; the camera translation is scaled with the frustum)") { C16_VARIANT ("scaled/", planes_case<double> (c, "double", &V_PLN_SCALED)); }
+VP_LABELS (planes_scaled_d, C16_FR_LABELS, C16_PLN_LABELS, C16_V_LABELS)
+VP_REQUIRE_LABELS (planes_scaled_d, "perspective", "orthographic", "planes(p)", "planes(p,rigid M)", "planes(p,uniform scale)", "planes(p,non-uniform scale)", "planes(p,general affine)", C16_V_SCALE_REQ)
+
+VP_RANDOM (planes_homog_f, 50000, 500000, C16_PLN_RULE C16_HG_RULE " planes(p, wM) is also compared with planes(p, M).") { C16_VARIANT ("homog/", planes_case<float> (c, "float", &V_PLN_HOMOG)); }
+VP_LABELS (planes_homog_f, C16_FR_LABELS, C16_PLN_LABELS, C16_V_LABELS)
+VP_REQUIRE_LABELS (planes_homog_f, "perspective", "orthographic", "planes(p,rigid M)", "planes(p,uniform scale)", "planes(p,non-uniform scale)", "planes(p,general affine)", C16_V_HOMOG_REQ)
+VP_FUZZABLE (planes_homog_f)
+VP_RANDOM (planes_homog_d, 50000, 500000, C16_PLN_RULE C16_HG_RULE " planes(p, wM) is also compared with planes(p, M).") { C16_VARIANT ("homog/", planes_case<double> (c, "double", &V_PLN_HOMOG)); }
+VP_LABELS (planes_homog_d, C16_FR_LABELS, C16_PLN_LABELS, C16_V_LABELS)
+VP_REQUIRE_LABELS (planes_homog_d, "perspective", "orthographic", "planes(p,rigid M)", "planes(p,uniform scale)", "planes(p,non-uniform scale)", "planes(p,general affine)", C16_V_HOMOG_REQ)
+
+#define C16_CU_REQ "perspective", "orthographic", "at_top", "at_right", "at_bottom", "at_left", "at_near", "at_far", "placed_inside", "placed_outside", "point_visible", "point_hidden", "box_touches(must be visible)", "box_has_point_outside(must not be contained)", "sphere_touches(must be visible)", "sphere_has_point_outside(must not be contained)"
+#define C16_V_REUSE_REQ "tester_fresh", "tester_reused_after_absolute_move_below_eps", "tester_reused_after_other_state"
+VP_RANDOM (cull_scaled_f, 60000, 600000, C16_CU_RULE C16_SC_RULE C16_RU_RULE) { C16_VARIANT ("scaled/", cull_case<float> (c, "float", &V_CU_SCALED)); }
+VP_LABELS (cull_scaled_f, C16_FR_LABELS, C16_CU_LABELS, C16_V_LABELS)
+VP_REQUIRE_LABELS (cull_scaled_f, C16_CU_REQ, C16_V_SCALE_REQ, C16_V_REUSE_REQ, "that_move_exceeds_the_frustum_size")
+VP_FUZZABLE (cull_scaled_f)
+VP_RANDOM (cull_scaled_d, 60000, 600000, C16_CU_RULE C16_SC_RULE C16_RU_RULE) { C16_VARIANT ("scaled/", cull_case<double> (c, "double", &V_CU_SCALED)); }
+VP_LABELS (cull_scaled_d, C16_FR_LABELS, C16_CU_LABELS, C16_V_LABELS)
+VP_REQUIRE_LABELS (cull_scaled_d, C16_CU_REQ, C16_V_SCALE_REQ, C16_V_REUSE_REQ, "that_move_exceeds_the_frustum_size")
+
+VP_RANDOM (cull_homog_f, 50000, 500000, C16_CU_RULE C16_HG_RULE C16_RU_RULE) { C16_VARIANT ("homog/", cull_case<float> (c, "float", &V_CU_HOMOG)); }
+VP_LABELS (cull_homog_f, C16_FR_LABELS, C16_CU_LABELS, C16_V_LABELS)
+VP_REQUIRE_LABELS (cull_homog_f, C16_CU_REQ, C16_V_HOMOG_REQ, C16_V_REUSE_REQ)
+VP_FUZZABLE (cull_homog_f)
+VP_RANDOM (cull_homog_d, 50000, 500000, C16_CU_RULE C16_HG_RULE C16_RU_RULE) { C16_VARIANT ("homog/", cull_case<double> (c, "double", &V_CU_HOMOG)); }
+VP_LABELS (cull_homog_d, C16_FR_LABELS, C16_CU_LABELS, C16_V_LABELS)
+VP_REQUIRE_LABELS (cull_homog_d, C16_CU_REQ, C16_V_HOMOG_REQ, C16_V_REUSE_REQ)
+
+// =====================================================================================
+// 8. State carried between calls on a re-used object.
+//    A FrustumTest on which setFrustum was called before, and a Frustum that held other values (incl. the other
+//    projection kind) before set / setExc / modifyNearAndFar / setOrthographic / operator=, must afterwards be
+//    indistinguishable from a FRESH object constructed with the same arguments: identical bits in every accessor and in
+//    everything computed from the object (same code on the same values - no tolerance), identical answers to probes.
+// =====================================================================================
+template <class T> static inline bool same7 (const Frustum<T>& a, const Frustum<T>& b)
+{
+    return same<T> (a.nearPlane (), b.nearPlane ()) && same<T> (a.farPlane (), b.farPlane ()) && same<T> (a.left (), b.left ()) && same<T> (a.right (), b.right ()) && same<T> (a.top (), b.top ()) && same<T> (a.bottom (), b.bottom ()) && a.orthographic () == b.orthographic ();
+}
+template <class T> static std::string fstr (const Frustum<T>& F)
+{
+    std::ostringstream o;
+    o << std::setprecision (17) << (F.orthographic () ? "ortho" : "persp") << " near=" << F.nearPlane () << " far=" << F.farPlane () << " left=" << F.left () << " right=" << F.right () << " top=" << F.top () << " bottom=" << F.bottom ();
+    return o.str ();
+}
+// the plane equations stored by a FrustumTest (protected).  Read only while the members still have the names they
+// have in the unchanged library (expression SFINAE); otherwise the comparison is left to accessors and probes.
+template <class T> struct PeekFT : public FrustumTest<T>
+{
+    PeekFT (const FrustumTest<T>& f) : FrustumTest<T> (f) {}
+    template <class U> static auto grab (const U& u, T* out, int) -> decltype ((void) u.planeNormX[1].x, (void) u.planeNormY[1].x, (void) u.planeNormZ[1].x, (void) u.planeOffsetVec[1].x, (void) u.planeNormAbsX[1].x, (void) u.planeNormAbsY[1].x, (void) u.planeNormAbsZ[1].x, bool ())
+    {
+        int n = 0;
+        for (int i = 0; i < 2; ++i)
+            for (int j = 0; j < 3; ++j)
+            {
+                out[n++] = u.planeNormX[i][j];
+                out[n++] = u.planeNormY[i][j];
+                out[n++] = u.planeNormZ[i][j];
+                out[n++] = u.planeOffsetVec[i][j];
+                out[n++] = u.planeNormAbsX[i][j];
+                out[n++] = u.planeNormAbsY[i][j];
+                out[n++] = u.planeNormAbsZ[i][j];
+            }
+        return true;
+    }
+    template <class U> static bool grab (const U&, T*, long) { return false; }
+    bool stored (T* out) const { return grab (*this, out, 0); }
+};
+
+enum
+{
+    RU_IDENTICAL = FL_FIRST_FREE,
+    RU_ULP,
+    RU_REL,
+    RU_ABS,
+    RU_DIFFERENT,
+    RU_ORTHO_TOGGLE,
+    RU_TGT_FRUSTUM,
+    RU_TGT_TRANSLATION,
+    RU_TGT_LINEAR,
+    RU_ABS_EXCEEDS_SCENE,
+    RU_PROBE_VISIBLE,
+    RU_PROBE_HIDDEN,
+    RU_BOX_CONTAINED,
+    RU_SPH_CONTAINED,
+    RU_PEEKED,
+    RU_V0
+};
+#define C16_RUT_LABELS "step_identical_arguments", "step_one_value_moved_1ulp", "step_one_value_moved_by_relative_2^-k", "step_one_value_moved_by_absolute_2^-k", "step_unrelated_frustum_and_camera", "step_projection_kind_toggled", "moved_frustum_value", "moved_camera_translation", "moved_camera_linear_part", "absolute_move_of_translation_exceeds_scene_magnitude", "probe_visible", "probe_hidden", "probe_box_contained", "probe_sphere_contained", "stored_planes_compared"
+
+// change one value of (F, M): kind 1 = one ulp, 2 = relative 2^-e, 3 = absolute 2^-e.  A frustum value is changed only
+// if the frustum stays valid (0 < near < far, left < right, bottom < top).
+// ntgt = 18: any of the 6 frustum values, 3 translation entries, 9 linear entries; ntgt = 6: frustum values only.
+template <class T> static void perturb_state (vp::Ctx& c, int kind, Frustum<T>& F, Matrix44<T>& M, double mag, int ntgt)
+{
+    typedef std::numeric_limits<T> L;
+    vp::Src&                       s   = c.s;
+    int                            tgt = (int) s.below ((uint64_t) ntgt); // 0..5 frustum, 6..8 translation, 9..17 linear part
+    bool                           up  = s.coin ();
+    int                            e   = kind == 2 ? (int) s.range (1, FInfo<T>::mant - 1) : (int) s.range (8, FInfo<T>::mant + 16);
+    T                              fv[6] = { F.nearPlane (), F.farPlane (), F.left (), F.right (), F.top (), F.bottom () };
+    T*                             x   = tgt < 6 ? &fv[tgt] : tgt < 9 ? &M[3][tgt - 6] : &M[(tgt - 9) / 3][(tgt - 9) % 3];
+    T                              old = *x, nw;
+    if (kind == 1)
+        nw = std::nextafter (old, up ? L::max () : -L::max ());
+    else if (kind == 2)
+        nw = old * ((T) 1 + (up ? 1 : -1) * std::ldexp ((T) 1, -e));
+    else
+        nw = old + (up ? 1 : -1) * std::ldexp ((T) 1, -e);
+    *x = nw;
+    if (tgt < 6)
+    {
+        if (fv[0] > 0 && fv[1] > fv[0] && fv[3] > fv[2] && fv[4] > fv[5]) F.set (fv[0], fv[1], fv[2], fv[3], fv[4], fv[5], F.orthographic ());
+        if (ntgt > 6) c.label (RU_TGT_FRUSTUM);
+    }
+    else
+        c.label (tgt < 9 ? RU_TGT_TRANSLATION : RU_TGT_LINEAR);
+    if (kind == 3 && tgt >= 6 && tgt < 9 && std::fabs ((double) nw - (double) old) > mag) c.label (RU_ABS_EXCEEDS_SCENE);
+    VP_NOTE (c, "  value " << tgt << (kind == 1 ? " moved one ulp" : kind == 2 ? " moved by a relative 2^-" : " moved by an absolute 2^-") << (kind == 1 ? 0 : e) << (up ? " up" : " down"));
+}
+
+// the re-used tester against a fresh one built from the same arguments
+template <class T> static void compare_testers (vp::Ctx& c, const char* tn, const FrustumTest<T>& ft, const Frustum<T>& F, const Matrix44<T>& M, int step)
+{
+    typedef Vec3<T> V;
+    vp::Src&        s = c.s;
+    FrustumTest<T>  fresh (F, M);
+    Matrix44<T>     cm = ft.cameraMat ();
+    bool            eqM = true;
+    for (int i = 0; i < 4; ++i)
+        for (int j = 0; j < 4; ++j)
+            eqM = eqM && same<T> (cm[i][j], M[i][j]);
+    VP_REQUIRE (c, eqM, "FrustumTest-reuse/cameraMat", tn << " after setFrustum call " << step << " on the same tester cameraMat() = " << mstr (cm, 4) << " but the camera given was " << mstr (M, 4));
+    VP_REQUIRE (c, same7 (ft.currentFrustum (), F), "FrustumTest-reuse/currentFrustum", tn << " after setFrustum call " << step << " on the same tester currentFrustum() = " << fstr (ft.currentFrustum ()) << " but the frustum given was " << fstr (F));
+    {
+        T         a[42], b[42];
+        PeekFT<T> pa (ft), pb (fresh);
+        if (pa.stored (a) && pb.stored (b))
+        {
+            c.label (RU_PEEKED);
+            for (int n = 0; n < 42; ++n)
+                VP_REQUIRE (c, same<T> (a[n], b[n]), "FrustumTest-reuse/stored-planes", tn << " after setFrustum call " << step << " the re-used tester holds plane value " << a[n] << " (slot " << n / 7 << ", member " << n % 7 << " of X,Y,Z,offset,|X|,|Y|,|Z|) where a fresh FrustumTest(frustum, camera) holds " << b[n]);
+        }
+    }
+    // probes: a point of the frustum (local coordinates u,v in the window at depth d) pushed through one of the six
+    // faces by +-10^-k of the window / depth range, taken to world space; a box and a sphere around it
+    const double n = F.nearPlane (), f = F.farPlane (), l = F.left (), r = F.right (), t = F.top (), b = F.bottom ();
+    for (int q = 0; q < 2; ++q)
+    {
+        int    face = (int) s.below (7); // 6 = anywhere
+        double u    = s.uniform (-0.1, 1.1);
+        double w    = s.uniform (-0.1, 1.1);
+        double dz   = s.unit ();
+        int    kd   = (int) s.range (0, sizeof (T) == 8 ? 12 : 5);
+        double m    = s.uniform (1, 9);
+        bool   out  = s.coin ();
+        double off  = std::pow (10.0, -(double) kd) * m * (out ? 1 : -1);
+        if (off < -0.5) off = -0.5;
+        switch (face)
+        {
+            case 0: w = 1 + off; break;
+            case 1: u = 1 + off; break;
+            case 2: w = -off; break;
+            case 3: u = -off; break;
+            case 4: dz = -off; break;
+            case 5: dz = 1 + off; break;
+            default: break;
+        }
+        double d  = n + (f - n) * dz;
+        double at = F.orthographic () ? 1.0 : d / n;
+        double P[3] = { (l + (r - l) * u) * at, (b + (t - b) * w) * at, -d };
+        double Wd[3], amax = 0;
+        for (int j = 0; j < 3; ++j)
+        {
+            Wd[j] = P[0] * M[0][j] + P[1] * M[1][j] + P[2] * M[2][j] + M[3][j];
+            for (int i = 0; i < 3; ++i)
+                amax = std::max (amax, std::fabs ((double) M[i][j]));
+        }
+        V      pt ((T) Wd[0], (T) Wd[1], (T) Wd[2]);
+        double ext = std::max (r - l, t - b) * std::fabs (at) * amax;
+        double e1  = s.uniform (-(double) kd - 1, 0.3);
+        double e2  = s.uniform (-(double) kd - 1, 0.3);
+        T      ea  = (T) (ext * std::pow (10.0, e1)), eb = (T) (ext * std::pow (10.0, e2));
+        Box<V>     box (pt - V (ea, eb, ea), pt + V (eb, ea, eb));
+        Sphere3<T> sph (pt, ea);
+        bool       a0 = ft.isVisible (pt), b0 = fresh.isVisible (pt);
+        bool       a1 = ft.isVisible (box), b1 = fresh.isVisible (box);
+        bool       a2 = ft.completelyContains (box), b2 = fresh.completelyContains (box);
+        bool       a3 = ft.isVisible (sph), b3 = fresh.isVisible (sph);
+        bool       a4 = ft.completelyContains (sph), b4 = fresh.completelyContains (sph);
+        c.label (b0 ? RU_PROBE_VISIBLE : RU_PROBE_HIDDEN);
+        if (b2) c.label (RU_BOX_CONTAINED);
+        if (b4) c.label (RU_SPH_CONTAINED);
+        VP_REQUIRE (c, a0 == b0, "FrustumTest-reuse/isVisible-point", tn << " after setFrustum call " << step << ": isVisible(" << vs (pt) << ") = " << a0 << " on the re-used tester, " << b0 << " on a fresh FrustumTest(frustum, camera)");
+        VP_REQUIRE (c, a1 == b1, "FrustumTest-reuse/isVisible-box", tn << " after setFrustum call " << step << ": isVisible(box " << vs (box.min) << ".." << vs (box.max) << ") = " << a1 << " on the re-used tester, " << b1 << " on a fresh one");
+        VP_REQUIRE (c, a2 == b2, "FrustumTest-reuse/completelyContains-box", tn << " after setFrustum call " << step << ": completelyContains(box " << vs (box.min) << ".." << vs (box.max) << ") = " << a2 << " on the re-used tester, " << b2 << " on a fresh one");
+        VP_REQUIRE (c, a3 == b3, "FrustumTest-reuse/isVisible-sphere", tn << " after setFrustum call " << step << ": isVisible(sphere " << vs (pt) << ", r=" << ea << ") = " << a3 << " on the re-used tester, " << b3 << " on a fresh one");
+        VP_REQUIRE (c, a4 == b4, "FrustumTest-reuse/completelyContains-sphere", tn << " after setFrustum call " << step << ": completelyContains(sphere " << vs (pt) << ", r=" << ea << ") = " << a4 << " on the re-used tester, " << b4 << " on a fresh one");
+    }
+}
+
+template <class T> static void reuse_ft_case (vp::Ctx& c, const char* tn)
+{
+    vp::Src& s = c.s;
+    int      E = draw_scene_exp<T> (s);
+    if (sizeof (T) == 4 && E > 24) E = 24; // (float: the plane normals of larger scenes overflow)
+    FG<T>       g  = gen_frustum<T> (c, true, 4);
+    int         mk = (int) s.range (MK_IDENT, MK_GENERAL);
+    Matrix44<T> M  = gen_affine<T> (s, mk, false);
+    int         k  = E - ilogb_pos (scene_magnitude (g.F, M));
+    Frustum<T>  F  = scaled_frustum (g.F, k);
+    M              = scaled_camera (M, k);
+    const double mag = std::ldexp (1.0, E + 1);
+    VP_NOTE (c, "SCALED by 2^" << k << ": " << fstr (F) << " camera(" << MK_NAME[mk] << ")=" << mstr (M, 4));
+    FrustumTest<T> ft;
+    bool           viaCtor = s.coin ();
+    if (viaCtor)
+        ft = FrustumTest<T> (F, M);
+    else
+        ft.setFrustum (F, M);
+    compare_testers (c, tn, ft, F, M, 0);
+    int nsteps = (int) s.range (2, 6);
+    c.nt ();
+    for (int st = 1; st <= nsteps; ++st)
+    {
+        int kind = (int) s.below (6);
+        switch (kind)
+        {
+            case 0:
+                c.label (RU_IDENTICAL);
+                VP_NOTE (c, " step " << st << ": identical arguments");
+                break;
+            case 1:
+            case 2:
+            case 3:
+                c.label (kind == 1 ? RU_ULP : kind == 2 ? RU_REL : RU_ABS);
+                VP_NOTE (c, " step " << st << ":");
+                perturb_state (c, kind, F, M, mag, 18);
+                break;
+            case 4:
+            {
+                FG<T> h   = gen_frustum<T> (c, true, 4);
+                int   mk2 = (int) s.range (MK_IDENT, MK_GENERAL);
+                M         = gen_affine<T> (s, mk2, false);
+                int k2    = E - ilogb_pos (scene_magnitude (h.F, M));
+                F         = scaled_frustum (h.F, k2);
+                M         = scaled_camera (M, k2);
+                c.label (RU_DIFFERENT);
+                VP_NOTE (c, " step " << st << ": unrelated " << fstr (F) << " camera=" << mstr (M, 4));
+                break;
+            }
+            default:
+                F.setOrthographic (!F.orthographic ());
+                c.label (RU_ORTHO_TOGGLE);
+                VP_NOTE (c, " step " << st << ": projection kind toggled");
+                break;
+        }
+        ft.setFrustum (F, M);
+        compare_testers (c, tn, ft, F, M, st);
+    }
+}
+#define C16_RUT_RULE C16_FR_RULE "(far/near up to 1e4) x camera identity..general affine, scene multiplied by 2^k to magnitude 2^E (float -30..24, double -100..100); one FrustumTest receives 1 + 2..6 setFrustum calls (the first possibly through the constructor); each further call repeats the arguments, moves one of the 6 frustum values / 3 translation / 9 linear camera entries by one ulp, by a relative 2^-(1..p-1) or by an absolute 2^-(8..p+16), replaces both by unrelated ones or toggles the projection kind; after every call cameraMat(), currentFrustum(), the stored plane equations and the answers of all five queries on 2 probes (a point at one of the six faces +-10^-k, a box and a sphere around it) must equal those of a fresh FrustumTest(frustum, camera) bit for bit; every case counts as non-trivial"
+VP_RANDOM (reuse_tester_f, 100000, 1000000, C16_RUT_RULE) { reuse_ft_case<float> (c, "float"); }
+VP_LABELS (reuse_tester_f, C16_FR_LABELS, C16_RUT_LABELS)
+VP_REQUIRE_LABELS (reuse_tester_f, "perspective", "orthographic", "step_identical_arguments", "step_one_value_moved_1ulp", "step_one_value_moved_by_relative_2^-k", "step_one_value_moved_by_absolute_2^-k", "step_unrelated_frustum_and_camera", "step_projection_kind_toggled", "moved_frustum_value", "moved_camera_translation", "moved_camera_linear_part", "absolute_move_of_translation_exceeds_scene_magnitude", "probe_visible", "probe_hidden", "probe_box_contained", "probe_sphere_contained")
+VP_FUZZABLE (reuse_tester_f)
+VP_RANDOM (reuse_tester_d, 100000, 1000000, C16_RUT_RULE) { reuse_ft_case<double> (c, "double"); }
+VP_LABELS (reuse_tester_d, C16_FR_LABELS, C16_RUT_LABELS)
+VP_REQUIRE_LABELS (reuse_tester_d, "perspective", "orthographic", "step_identical_arguments", "step_one_value_moved_1ulp", "step_one_value_moved_by_relative_2^-k", "step_one_value_moved_by_absolute_2^-k", "step_unrelated_frustum_and_camera", "step_projection_kind_toggled", "moved_frustum_value", "moved_camera_translation", "moved_camera_linear_part", "absolute_move_of_translation_exceeds_scene_magnitude", "probe_visible", "probe_hidden", "probe_box_contained", "probe_sphere_contained")
+
+// ---- Frustum itself ------------------------------------------------------------------
+// everything computed from the re-used frustum A against the same from the fresh frustum B
+template <class T> static void compare_frusta (vp::Ctx& c, const char* tn, const char* key, const Frustum<T>& A, const Frustum<T>& B, const Matrix44<T>& cam)
+{
+    typedef Vec3<T> V;
+#define C16_SAME(ea, eb, what) VP_REQUIRE (c, same<T> ((ea), (eb)), key, tn << ": " << what << " = " << (ea) << " on the re-used frustum, " << (eb) << " on a fresh one holding the same values [" << fstr (B) << "]")
+    VP_REQUIRE (c, same7 (A, B), key, tn << ": the re-used frustum holds " << fstr (A) << ", a fresh one " << fstr (B));
+    VP_REQUIRE (c, A == B && !(A != B) && B == A && A.degenerate () == B.degenerate (), key, tn << ": operator== / operator!= / degenerate() distinguish the re-used frustum from a fresh one holding the same values [" << fstr (B) << "]");
+    C16_SAME (A.hither (), B.hither (), "hither()");
+    C16_SAME (A.yon (), B.yon (), "yon()");
+    Matrix44<T> PA = A.projectionMatrix (), PB = B.projectionMatrix ();
+    for (int i = 0; i < 4; ++i)
+        for (int j = 0; j < 4; ++j)
+            C16_SAME (PA[i][j], PB[i][j], "projectionMatrix()[" << i << "][" << j << "]");
+    Plane3<T> pa[6], pb[6];
+    A.planes (pa);
+    B.planes (pb);
+    for (int i = 0; i < 6; ++i)
+    {
+        for (int j = 0; j < 3; ++j)
+            C16_SAME (pa[i].normal[j], pb[i].normal[j], "planes(p) " << PLANE_NAME[i] << " normal[" << j << "]");
+        C16_SAME (pa[i].distance, pb[i].distance, "planes(p) " << PLANE_NAME[i] << " distance");
+    }
+    A.planes (pa, cam);
+    B.planes (pb, cam);
+    for (int i = 0; i < 6; ++i)
+    {
+        for (int j = 0; j < 3; ++j)
+            C16_SAME (pa[i].normal[j], pb[i].normal[j], "planes(p,M) " << PLANE_NAME[i] << " normal[" << j << "]");
+        C16_SAME (pa[i].distance, pb[i].distance, "planes(p,M) " << PLANE_NAME[i] << " distance");
+    }
+    C16_SAME (A.fovx (), B.fovx (), "fovx()");
+    C16_SAME (A.fovy (), B.fovy (), "fovy()");
+    C16_SAME (A.aspect (), B.aspect (), "aspect()");
+    const T n = B.nearPlane (), f = B.farPlane (), l = B.left (), r = B.right (), t = B.top (), b = B.bottom ();
+    V       pt ((l + r) * (T) 0.65 + (r - l) * (T) 0.1, (t + b) * (T) 0.35 - (t - b) * (T) 0.2, -(n + f) / 2);
+    Vec2<T> sa = A.projectPointToScreen (pt), sb = B.projectPointToScreen (pt);
+    C16_SAME (sa.x, sb.x, "projectPointToScreen(" << vs (pt) << ").x");
+    C16_SAME (sa.y, sb.y, "projectPointToScreen(" << vs (pt) << ").y");
+    Line3<T> ra = A.projectScreenToRay (Vec2<T> ((T) 0.3, (T) -0.6)), rb = B.projectScreenToRay (Vec2<T> ((T) 0.3, (T) -0.6));
+    for (int j = 0; j < 3; ++j)
+    {
+        C16_SAME (ra.pos[j], rb.pos[j], "projectScreenToRay(0.3,-0.6).pos[" << j << "]");
+        C16_SAME (ra.dir[j], rb.dir[j], "projectScreenToRay(0.3,-0.6).dir[" << j << "]");
+    }
+    C16_SAME (A.normalizedZToDepth ((T) 0.3), B.normalizedZToDepth ((T) 0.3), "normalizedZToDepth(0.3)");
+    C16_SAME (A.ZToDepth (100, 0, 1000), B.ZToDepth (100, 0, 1000), "ZToDepth(100,0,1000)");
+    VP_REQUIRE (c, A.DepthToZ (-(n + f) / 2, 0, 65535) == B.DepthToZ (-(n + f) / 2, 0, 65535), key, tn << ": DepthToZ(" << -(n + f) / 2 << ",0,65535) = " << A.DepthToZ (-(n + f) / 2, 0, 65535) << " on the re-used frustum, " << B.DepthToZ (-(n + f) / 2, 0, 65535) << " on a fresh one [" << fstr (B) << "]");
+    C16_SAME (A.screenRadius (pt, r - l), B.screenRadius (pt, r - l), "screenRadius(p, right-left)");
+    C16_SAME (A.worldRadius (pt, r - l), B.worldRadius (pt, r - l), "worldRadius(p, right-left)");
+    Frustum<T> wa = A.window ((T) -0.5, (T) 0.75, (T) 0.5, (T) -0.25), wb = B.window ((T) -0.5, (T) 0.75, (T) 0.5, (T) -0.25);
+    VP_REQUIRE (c, same7 (wa, wb), key, tn << ": window(-0.5,0.75,0.5,-0.25) = " << fstr (wa) << " on the re-used frustum, " << fstr (wb) << " on a fresh one [" << fstr (B) << "]");
+#undef C16_SAME
+}
+
+enum
+{
+    RF_SET = FL_FIRST_FREE,
+    RF_SET_FOV,
+    RF_SETEXC,
+    RF_MODIFY,
+    RF_SETORTHO,
+    RF_ASSIGN,
+    RF_SET_NEARBY,
+    RF_SET_SAME,
+    RF_KIND_CHANGED
+};
+#define C16_RUF_LABELS "set(n,f,l,r,t,b,o)", "set(n,f,fovx,fovy,aspect)", "setExc(n,f,fovx,fovy,aspect)", "modifyNearAndFar", "setOrthographic", "operator=", "set(one_value_moved_1ulp/relative/absolute)", "set(identical_values)", "projection_kind_changed_by_the_call"
+
+template <class T> static void reuse_fr_case (vp::Ctx& c, const char* tn)
+{
+    vp::Src&    s  = c.s;
+    int         E  = draw_scene_exp<T> (s);
+    FG<T>       g  = gen_frustum<T> (c);
+    Frustum<T>  F  = scaled_frustum (g.F, E - ilogb_pos ((double) g.F.farPlane ())); // the re-used object
+    int         mk = (int) s.range (MK_IDENT, MK_GENERAL);
+    Matrix44<T> cam = scaled_camera (gen_affine<T> (s, mk, false), E - 2);
+    VP_NOTE (c, "SCALED to magnitude 2^" << E << ": " << fstr (F) << " camera(" << MK_NAME[mk] << ")=" << mstr (cam, 4));
+    int nsteps = (int) s.range (2, 6);
+    c.nt ();
+    for (int st = 1; st <= nsteps; ++st)
+    {
+        int              op = (int) s.below (8);
+        const Frustum<T> before (F.nearPlane (), F.farPlane (), F.left (), F.right (), F.top (), F.bottom (), F.orthographic ()); // a fresh object with the observable state
+        const bool       was_ortho = F.orthographic ();
+        switch (op)
+        {
+            case 0: // set(n,f,l,r,t,b,o) with unrelated values
+            case 5: // operator= from an unrelated frustum
+            {
+                FG<T>      h = gen_frustum<T> (c, false);
+                Frustum<T> W = scaled_frustum (h.F, E - ilogb_pos ((double) h.F.farPlane ()));
+                VP_NOTE (c, " step " << st << (op == 0 ? ": set(" : ": operator= (") << fstr (W) << ")");
+                if (op == 0)
+                {
+                    F.set (W.nearPlane (), W.farPlane (), W.left (), W.right (), W.top (), W.bottom (), W.orthographic ());
+                    Frustum<T> R (W.nearPlane (), W.farPlane (), W.left (), W.right (), W.top (), W.bottom (), W.orthographic ());
+                    c.label (RF_SET);
+                    VP_REQUIRE (c, same7 (F, W), "Frustum-reuse/set/accessors", tn << " step " << st << ": set(" << fstr (W) << ") on a frustum holding [" << fstr (before) << "] reads back as " << fstr (F));
+                    compare_frusta (c, tn, "Frustum-reuse/set", F, R, cam);
+                }
+                else
+                {
+                    F = W;
+                    Frustum<T> R (W);
+                    c.label (RF_ASSIGN);
+                    VP_REQUIRE (c, same7 (F, W), "Frustum-reuse/assign/accessors", tn << " step " << st << ": operator= (" << fstr (W) << ") on a frustum holding [" << fstr (before) << "] reads back as " << fstr (F));
+                    compare_frusta (c, tn, "Frustum-reuse/assign", F, R, cam);
+                }
+                break;
+            }
+            case 1: // set(near, far, fovx, fovy, aspect)
+            case 2: // setExc(...)
+            {
+                double ne = s.uniform (-2, 2);
+                double fe = s.uniform (0.1, 4);
+                T      n  = (T) std::pow (10.0, ne);
+                T      f  = n * (T) std::pow (10.0, fe);
+                int    k2 = E - ilogb_pos ((double) f);
+                n         = std::ldexp (n, k2);
+                f         = std::ldexp (f, k2);
+                T      fov = (T) s.uniform (0.05, 2.8);
+                double ae  = s.uniform (-0.5, 0.5);
+                T      asp = (T) std::pow (10.0, ae);
+                bool   x   = s.coin ();
+                VP_NOTE (c, " step " << st << (op == 1 ? ": set(" : ": setExc(") << n << "," << f << "," << (x ? "fovx=" : "fovy=") << fov << ",aspect=" << asp << ")");
+                bool threw = false;
+                if (op == 1)
+                    F.set (n, f, x ? fov : (T) 0, x ? (T) 0 : fov, asp);
+                else
+                {
+                    try
+                    {
+                        F.setExc (n, f, x ? fov : (T) 0, x ? (T) 0 : fov, asp);
+                    }
+                    catch (const std::exception&)
+                    {
+                        threw = true;
+                    }
+                }
+                Frustum<T> R (n, f, x ? fov : (T) 0, x ? (T) 0 : fov, asp);
+                c.label (op == 1 ? RF_SET_FOV : RF_SETEXC);
+                VP_REQUIRE (c, !threw, "Frustum-reuse/setExc/throws", tn << " step " << st << ": setExc with exactly one of fovx, fovy non-zero threw");
+                VP_REQUIRE (c, same<T> (F.nearPlane (), n) && same<T> (F.farPlane (), f) && !F.orthographic (), op == 1 ? "Frustum-reuse/set-fov/accessors" : "Frustum-reuse/setExc/accessors", tn << " step " << st << ": set(near,far,fov,aspect) on a frustum holding [" << fstr (before) << "] gives " << fstr (F) << " (near/far must be stored, the result is a perspective frustum)");
+                compare_frusta (c, tn, op == 1 ? "Frustum-reuse/set-fov" : "Frustum-reuse/setExc", F, R, cam);
+                break;
+            }
+            case 3: // modifyNearAndFar
+            {
+                double ne = s.uniform (-1, 1);
+                double fe = s.uniform (0.1, 3);
+                T      n2 = (T) ((double) F.nearPlane () * std::pow (10.0, ne));
+                T      f2 = n2 * (T) std::pow (10.0, fe);
+                VP_NOTE (c, " step " << st << ": modifyNearAndFar(" << n2 << "," << f2 << ")");
+                F.modifyNearAndFar (n2, f2);
+                Frustum<T> R (before.nearPlane (), before.farPlane (), before.left (), before.right (), before.top (), before.bottom (), before.orthographic ());
+                R.modifyNearAndFar (n2, f2);
+                c.label (RF_MODIFY);
+                VP_REQUIRE (c, same<T> (F.nearPlane (), n2) && same<T> (F.farPlane (), f2) && F.orthographic () == was_ortho, "Frustum-reuse/modifyNearAndFar/accessors", tn << " step " << st << ": modifyNearAndFar(" << n2 << "," << f2 << ") on [" << fstr (before) << "] gives " << fstr (F));
+                compare_frusta (c, tn, "Frustum-reuse/modifyNearAndFar", F, R, cam);
+                break;
+            }
+            case 4: // setOrthographic
+            {
+                bool o = s.coin ();
+                VP_NOTE (c, " step " << st << ": setOrthographic(" << o << ")");
+                F.setOrthographic (o);
+                Frustum<T> R (before.nearPlane (), before.farPlane (), before.left (), before.right (), before.top (), before.bottom (), o);
+                c.label (RF_SETORTHO);
+                VP_REQUIRE (c, same7 (F, R), "Frustum-reuse/setOrthographic/accessors", tn << " step " << st << ": setOrthographic(" << o << ") on [" << fstr (before) << "] gives " << fstr (F));
+                compare_frusta (c, tn, "Frustum-reuse/setOrthographic", F, R, cam);
+                break;
+            }
+            default: // set() with the current values: identical (7), or one of them moved by one ulp / relative / absolute (6)
+            {
+                Frustum<T>  W = before;
+                Matrix44<T> dummy;
+                if (op == 6)
+                {
+                    int kind = (int) s.range (1, 3);
+                    VP_NOTE (c, " step " << st << ": set(current values,");
+                    perturb_state (c, kind, W, dummy, 0.0, 6);
+                }
+                else
+                    VP_NOTE (c, " step " << st << ": set(current values)");
+                F.set (W.nearPlane (), W.farPlane (), W.left (), W.right (), W.top (), W.bottom (), W.orthographic ());
+                Frustum<T> R (W.nearPlane (), W.farPlane (), W.left (), W.right (), W.top (), W.bottom (), W.orthographic ());
+                c.label (op == 6 ? RF_SET_NEARBY : RF_SET_SAME);
+                VP_REQUIRE (c, same7 (F, W), "Frustum-reuse/set-nearby/accessors", tn << " step " << st << ": set(" << fstr (W) << ") on a frustum holding [" << fstr (before) << "] reads back as " << fstr (F));
+                compare_frusta (c, tn, "Frustum-reuse/set-nearby", F, R, cam);
+                break;
+            }
+        }
+        if (F.orthographic () != was_ortho) c.label (RF_KIND_CHANGED);
+    }
+}
+#define C16_RUF_RULE C16_FR_RULE "scaled by 2^k to magnitude 2^E (float -30..29, double -100..100); the same Frustum object then receives 2..6 calls out of set(7 values) / operator= with an unrelated frustum, set / setExc(near,far,fovx or fovy,aspect), modifyNearAndFar(near x 0.1..10, far/near 1.3..1000), setOrthographic, set() with its current values or with one of them moved by one ulp / a relative 2^-k / an absolute 2^-k; after every call the 7 accessors, operator==, projectionMatrix, planes(p), planes(p,M), fovx/fovy/aspect, projectPointToScreen, projectScreenToRay, normalizedZToDepth, ZToDepth, DepthToZ, screenRadius, worldRadius and window must equal, bit for bit, those of a fresh object constructed with the same arguments (for the modifiers: constructed from the previous accessor values, then modified); every case counts as non-trivial"
+VP_RANDOM (reuse_frustum_f, 100000, 1000000, C16_RUF_RULE) { reuse_fr_case<float> (c, "float"); }
+VP_LABELS (reuse_frustum_f, C16_FR_LABELS, C16_RUF_LABELS)
+VP_REQUIRE_LABELS (reuse_frustum_f, "perspective", "orthographic", "built_from_fov", C16_RUF_LABELS)
+VP_FUZZABLE (reuse_frustum_f)
+VP_RANDOM (reuse_frustum_d, 100000, 1000000, C16_RUF_RULE) { reuse_fr_case<double> (c, "double"); }
+VP_LABELS (reuse_frustum_d, C16_FR_LABELS, C16_RUF_LABELS)
+VP_REQUIRE_LABELS (reuse_frustum_d, "perspective", "orthographic", "built_from_fov", C16_RUF_LABELS)
 
 VP_MAIN ("C16")
